@@ -14,7 +14,7 @@ func run(r *core.Run) {
 	for _, sec := range []struct {
 		name string
 		f    func(*core.Run)
-	}{{"runCorpus", runCorpus}, {"runLenEnc", runLenEnc}, {"runPg", runPg}, {"runMysql", runMysql}, {"runBytea", runBytea}, {"runPgExt", runPgExt}, {"runPgDescribe", runPgDescribe}} {
+	}{{"runCorpus", runCorpus}, {"runLenEnc", runLenEnc}, {"runPg", runPg}, {"runMysql", runMysql}, {"runBytea", runBytea}, {"runPgExt", runPgExt}, {"runPgParse", runPgParse}, {"runPgBindBig", runPgBindBig}, {"runPgDescribe", runPgDescribe}} {
 		t0 := time.Now()
 		sec.f(r)
 		ms[sec.name] = time.Since(t0).Milliseconds()
